@@ -883,7 +883,7 @@ func init() {
 				}
 				return q, 5 * time.Minute
 			},
-			Gen: gen, Exec: withSample(gen, exec), Shrink: shrinkCtl, DeathSig: w3DeathSig(id),
+			Gen: withSchedKnobs(gen), Exec: withSample(gen, exec), Shrink: shrinkCtl, DeathSig: w3DeathSig(id),
 		})
 	}
 	common := "case = cluster starting with 1..3 servers and 3..12 control-plane steps: create / delete dataset through any node, join of a new node (up to 5), removal of a node, crash / restart of one or all nodes, waits that let the 10 s snapshot ticker compact the zero group (threshold knob 2, 3 or 5000), isolation / heal, optional message faults; then faults stop, everything restarts and settles, the oracle runs, ALL nodes are restarted once more and the oracle runs again, then a canary create through every node; "
